@@ -436,6 +436,16 @@ class Extractor:
         if not span:
             raise LostAnchor('%s: %s %s not found' % (kv['file'], kv['kind'], kv['name']))
         text = src.text[span[0]:span[1]]
+        if 'derives' in kv:
+            # R4 drops #[derive(..)]; the derived impls are ASSUMED field-wise.  That assumption is tied to
+            # the derive list: if it changes (e.g. a hand-written PartialEq replaces the derived one) the
+            # anchor is lost (UNDECIDED, then witness search), never a silent pass.
+            pre = src.text[max(0, span[0] - 600):span[0]]
+            ms = re.findall(r'#\[derive\(([^)]*)\)\]', pre.split('}')[-1])
+            got = sorted(x.strip() for m in ms for x in m.split(',') if x.strip())
+            want = sorted(x.strip() for x in kv['derives'].split(',') if x.strip())
+            if got != want:
+                raise LostAnchor('%s: derive list of %s changed: %s (contracts assume %s)' % (kv['file'], kv['name'], got, want))
         meta.append(dict(id='%s::%s %s' % (kv['file'].split('/src/')[-1], kv['kind'], kv['name']), file=kv['file'],
                          lines=[src.line_of(span[0]), src.line_of(span[1])],
                          sha256=hashlib.sha256(text.encode()).hexdigest(), rules=['R1', 'R4'], mode=self.mode,
